@@ -76,6 +76,21 @@ func fieldsRead(v ssa.Value, out map[string]bool, seen map[ssa.Value]bool) {
 				fieldsRead(a, out, seen)
 			}
 		}
+		// a module predicate (a named condition on a struct): the fields its answer is computed from
+		if g := x.Call.StaticCallee(); g != nil && len(g.Blocks) > 0 && len(g.Blocks) <= 6 && core.IsModPath(core.FuncPkgPath(g)) && isBoolType(x.Type()) {
+			for _, b := range g.Blocks {
+				for _, in := range b.Instrs {
+					if ret, ok := in.(*ssa.Return); ok {
+						for _, r := range ret.Results {
+							fieldsRead(r, out, seen)
+						}
+					}
+					if i, ok := in.(*ssa.If); ok {
+						fieldsRead(i.Cond, out, seen)
+					}
+				}
+			}
+		}
 	case *ssa.Phi:
 		for _, e := range x.Edges {
 			fieldsRead(e, out, seen)
@@ -420,7 +435,7 @@ func r37GateFirst(c *core.Ctx) {
 			c.OK(R, construct, p.pos, "len predicate (reference)")
 		}
 	}
-	c.FloorPrefix(R, "vmw-predicate-agrees/", 3)
+	c.FloorPrefix(R, "vmw-predicate-agrees/", 2)
 	c.FloorPrefix(R, "panic-excluded-by-gate/", 1)
 	c.FloorPrefix(R, "behind-gate/", 1)
 }
